@@ -32,6 +32,8 @@ CHECKS = {
          "Exploration: each seeded scenario is executed three times - wake-only, wake-only plus a sweep of all non-woken tasks after every step, wake-only plus spurious polls at random positions - and wire bytes, results and stream items must be identical; in the wake-only run a final sweep must change nothing and no quiescent point may leave readable input unconsumed."),
  "C04": ("fault_enumeration", "3.C04", "deterministic simulation with fault injection: hostile scripted broker (byte soup, 12 mutation kinds of valid packets, every packet type at every phase) + transport faults; systematic truncation / fault-offset sweeps; both arithmetic profiles",
          "Fault enumeration: systematically, every truncation of sampled valid packets of every server packet type (both phases), remaining length +-1, every packet type as first response and while running, EOF / read error at every inbound byte offset and write error / zero-length write at every outbound byte offset of a base scenario; plus seeded random placement of hostile bytes and faults inside conformant workloads with in-flight state. Oracle: no panic in any poll (documented assertion exempted), no stall with unread input, no busy loop, connect()/run() returns once the transport has ended. Run with overflow checks on and off."),
+ "C11": ("exploration", "3.C11", "deterministic simulation: long single-task histories across the 65535 identifier wrap (macro step, online uniqueness check), short diverse runs preset next to the wrap, and caller threads under the shuttle controlled scheduler (random + PCT) with every access to the shared counters a scheduling point",
+         "Exploration: (a) histories of 66k-200k identifier-consuming operations from 1-4 clones with 0-50 outstanding, checked online for non-zero identifiers that are unique among outstanding operations; (b) thousands of short conformant runs whose counters are preset 0-30 before the wrap; (c) 2-4 shuttle threads, each with its own clone, each starting 1-4 operations, counters preset next to the wrap, the guarded atomic shim making every counter access a scheduling point; failing schedules are persisted by shuttle and replay exactly. Wire judged by one oracle in all three."),
  "C12": ("exploration", "3.C12", "deterministic simulation with a twin run: the same recorded scenario is executed with and without the announced Maximum Packet Size; packet lengths L are read off the twin's wire, requests are padded to L in {M-1, M, M+1}",
          "Exploration: M in {absent, 1, 2, 3, values around the 127/128 and 16383/16384 length boundaries, 65-70k, 2^32-1, random 12..90} x requests of every kind padded through payload / topic / filter / user property / reason string so that the encoded length lands on M-1, M, M+1; oracle: L > M => MaximumPacketSizeExceeded and not one byte written, L <= M => written in full; afterwards the quota probe finds exactly the free Receive Maximum slots (nothing left behind) and no operation completes twice."),
  "C13": ("fault_enumeration", "3.C13", "seeded deterministic simulation with fault injection: every terminating cause (user/server DISCONNECT, EOF, read/write error, handles dropped, undecodable input) injected at random session states; connect()/authorize() outcomes",
@@ -58,7 +60,7 @@ def entry(pid, v):
 
 manifest = {
     "version": 1,
-    "setup_cmd": "cd /verif/sim && CARGO_NET_OFFLINE=true cargo build --release --offline && CARGO_NET_OFFLINE=true cargo build --profile wrapping --offline && ./target/release/posim selftest refcodec",
+    "setup_cmd": "cd /verif/sim && CARGO_NET_OFFLINE=true cargo build --release --offline && CARGO_NET_OFFLINE=true cargo build --profile wrapping --offline && ./target/release/posim selftest refcodec && cd /verif/threads && CARGO_NET_OFFLINE=true cargo build --release --offline",
     "hooks": {
         "guard": "cargo feature `verif` of crate poster (off by default)",
         "enable": "the harness crate /verif/sim depends on poster = { path = \"/repo\", features = [\"verif\"] }; cargo rebuilds poster from /repo's working tree on every check",
@@ -67,6 +69,8 @@ manifest = {
         "add_only": False,
     },
     "engines": [
+        {"name": "posim-threads", "path": "/verif/threads", "serves_properties": ["C11"],
+         "kind_free_text": "shuttle 0.9.3 controlled thread scheduler (random and PCT) driving caller threads at the identifier allocation; the context and wire are then served and judged inside posim"},
         {"name": "posim", "path": "/verif/sim", "serves_properties": sorted(CHECKS.keys()),
          "kind_free_text": "deterministic discrete-event simulator (own executor, AsyncRead/AsyncWrite transports, scripted MQTT 5 broker with independent codec, simulated clock, hooked select! arbiter) with seeded fault injection, ddmin minimiser and replay files"},
     ],
